@@ -317,7 +317,7 @@ func checkC13(c C13Case) (*Violation, []string, *caseInfo) {
 			// must report it with status 2
 			want = cliModel(p.Bin, p.Arg0, p.Argv, fs, stdinBytes(fs, p, prev))
 		}
-		res := runProc(fs, p, IOCfg{c.Sector, c.FileChunk, false}, prev)
+		res := runProc(fs, p, IOCfg{c.Sector, c.FileChunk, false, nil}, prev)
 		log = append(log, eventLog(i, res)...)
 		prev = res.Stdout
 		info.Steps += len(res.Steps)
@@ -437,7 +437,7 @@ func genCase13(c *Chooser) C13Case {
 	np := len(cs.Procs)
 	// faults inside the producer: learn its steps from a fault-free dry run
 	if c.Chance(3, 10) {
-		dry := runProc(fsFromFiles(cs.Files, nil), producer, IOCfg{cs.Sector, cs.FileChunk, false}, nil)
+		dry := runProc(fsFromFiles(cs.Files, nil), producer, IOCfg{cs.Sector, cs.FileChunk, false, nil}, nil)
 		var cand []simos.Fault
 		for _, st := range dry.Steps {
 			for _, kind := range simos.Applicable(st.Kind) {
@@ -672,7 +672,7 @@ func shrink13(raw json.RawMessage) []json.RawMessage {
 		var prev []byte
 		for i, p := range c.Procs[:len(c.Procs)-1] {
 			before := fs.Clone()
-			res := runProc(fs, p, IOCfg{c.Sector, c.FileChunk, false}, prev)
+			res := runProc(fs, p, IOCfg{c.Sector, c.FileChunk, false, nil}, prev)
 			prev = res.Stdout
 			for _, df := range c.Disk {
 				if df.After == i {
